@@ -764,7 +764,8 @@ impl TransportFn<()> for SoundRun {
                 }
                 2 | 3 => {
                     let period = [0u32, 4, 16, 64, 100, 256][choose(6) as usize];
-                    let mult = choose(4) as u32;
+                    // a buffer of a few periods, or of many more than the transmit queue holds
+                    let mult = [0u32, 1, 2, 3, 8, 16, 32, 40][choose(8) as usize];
                     let buffer = if flip(1, 6) { period + 3 } else { period * mult };
                     let valid = period != 0 && period <= buffer && buffer % period == 0;
                     let r = snd.pcm_set_params(sid, buffer, period, PcmFeatures::empty(), 2, PcmFormat::U8, PcmRate::Rate44100);
